@@ -15,8 +15,22 @@ IMPL = 'props/C19/impl.py'
 
 def gen_case(rng, tier, i):
     coupled = (i % 4 == 3)
-    spec = kmodels.gen_spec(rng, ncomp=(2, 4), sizes=(1, 2, 3), coupled=coupled, nl_iters=60)
-    if not coupled:
+    lagging = (i % 8 == 5)          # coupled, stopped after 2-3 sweeps, solver iterations recorded too
+    override = (i % 8 in (2, 6))    # group 'seg' restores its own variables (load_case override) next to 'seg2'
+    if lagging:
+        spec = kmodels.gen_spec(rng, ncomp=(2, 4), sizes=(1, 2), coupled=True, nl_iters=rng.choice([2, 3]))
+        spec['solvers'][''] = dict(spec['solvers'].get('', {'ln': 'direct'}), nl='nlbgs',
+                                   maxiter=rng.choice([2, 3]))
+    elif override:
+        spec = kmodels.gen_spec(rng, ncomp=(3, 4), sizes=(1, 2), coupled=False, groups=True,
+                                group_names=['seg', 'seg2'])
+        paths = [c['path'] for c in spec['comps']]
+        if any(p.startswith('seg.') for p in paths):
+            spec['load_override'] = ['seg'] + (['seg.in'] if rng.random() < 0.3 and
+                                               any(p.startswith('seg.in.') for p in paths) else [])
+    else:
+        spec = kmodels.gen_spec(rng, ncomp=(2, 4), sizes=(1, 2, 3), coupled=coupled, nl_iters=60)
+    if not spec.get('coupled'):
         spec['solvers'] = {}
     dvs = spec['dvs']
     n = spec['comps'][0]['n']
@@ -40,7 +54,8 @@ def gen_case(rng, tier, i):
         nm = rng.choice(ins + outs)
         k = rng.randrange(1, len(nm))
         partial = rng.choice([[nm[:k] + '*'], ['*' + nm[k:]], [nm], ['*.' + nm.rsplit('.', 1)[1]], []])
-    return {'spec': spec, 'driver': driver, 'runs': runs, 'partial': partial, 'ncases': 4 if tier == 'quick' else 8,
+    return {'spec': spec, 'driver': driver, 'runs': runs, 'partial': partial, 'lagging': lagging,
+            'ncases': (6 if lagging else 4) if tier == 'quick' else 8,
             'seed': rng.randrange(10 ** 6)}
 
 
@@ -127,7 +142,7 @@ def run_cases(v, wd, cases, tag, compare=True):
         bad, errors, cmd = coq_mismatches(wd, ['C19.Model'], got, want, shard=8, tag='cases_' + tag)
         v.add_correspondence('state after load_case (every output and input of the model, as identifiers of bit '
                              'patterns) = C19.Model.load on the state before and the recorded case',
-                             nmodel, len(bad), 'E5 (bit patterns, explicit models)', cmd)
+                             nmodel, len(bad), 'E5 (bit patterns; explicit, converged and mid-iteration cases)', cmd)
         if errors:
             v.broke('correspondence:model-evaluation-failed')
             v.cov['broken_detail'] = json.dumps(errors[:2])[-3000:]
